@@ -68,6 +68,9 @@ def main(tier, seed):
             m2.uses = ["crate::ffi::%s" % t.name for t in prog.modules[0].items]
             prog.modules[0].uses = ["crate::ffi2::%s" % t.name for t in m2.items]
             prog.modules.append(m2)
+        if i % 2 == 1:
+            tooltier.add_traits(prog, rng, b)
+            emit_rust.assign_abi_names(prog)
         cfg = tooltier.STD_CONFIG[b]
         d = toolrun.fresh_dir(toolrun.workdir("c14", "p%d_%s" % (i, b)))
 
@@ -112,12 +115,32 @@ def main(tier, seed):
                 out["viol"].append(("permutation changes acceptance: %s" % kind, "-", e[-300:], s))
         # (3) an unrelated type nothing refers to: every other type's own files must not change
         p3 = copy.deepcopy(prog)
-        extra = spec.Opaque("ZzUnrelated")
-        mk = spec.Method("solo", None, [("x", ("prim", "u8"))], ("obox", "ZzUnrelated", False))
-        extra.methods.append(mk)
+        # the inserted types vary in kind, in where they sort (first / last by name and by module) and in the features their
+        # methods use (callbacks, write, results where the backend has them): per-type state of the generator must not leak
+        sup = tooltier.profiles.support(b)
+        zz = "Zz" if rng.random() < 0.7 else "Aa"
+        extra = spec.Opaque(zz + "UnrelatedOp")
+        extra.methods.append(spec.Method("solo", None, [("x", ("prim", "u8"))], ("obox", extra.name, False)))
+        if sup["callbacks"]:
+            extra.methods.append(spec.Method("with_cb", ("ref", None), [("f", ("cb", [("prim", "i32")], ("prim", "i32"), False))], ("prim", "i32")))
+        extra.methods.append(spec.Method("wr", ("ref", None), [("w", ("write",))], ("unit",)))
         p3.modules[rng.randrange(len(p3.modules))].items.insert(rng.randrange(3), extra)
         st = spec.Struct("AaUnrelatedSt", [("q", ("prim", "i16")), ("r", ("prim", "f32"))])
         p3.modules[0].items.insert(0, st)
+        en = spec.Enum("ZzzUnrelatedEn", [("North", None), ("South", None)])
+        if sup["callbacks"]:
+            en.methods.append(spec.Method("remap", ("val",), [("f", ("cb", [("prim", "i32")], ("prim", "i32"), False))], ("prim", "i32")))
+        else:
+            en.methods.append(spec.Method("ident", ("val",), [], ("prim", "i32")))
+        mlast = spec.Module("zz_unrelated")
+        mlast.items = [en]
+        if rng.random() < 0.5:
+            p3.modules.append(mlast)
+        else:
+            p3.modules[-1].items.append(en)
+        for t_ in (extra, st, en):
+            for m_ in t_.methods:
+                m_.owner = t_
         emit_rust.assign_abi_names(p3)
         kind, snap, s, e = gen(p3, "insert")
         if kind == "ok":
@@ -156,8 +179,8 @@ def main(tier, seed):
                            "base_dir": toolrun.workdir("c14", "p%d_%s" % (i, b))})
     chk.evaluations = stats["tool_runs"]
     chk.distinct = comparisons
-    chk.rule = ("programs with 10-20 types split over two bridge modules (two thirds of them decorated with backend-conditional rename/disable attributes and abi_rename patterns at module, type, impl and method level), per backend: base run vs (1) repeat runs in fresh processes, (2) random "
-                "permutations of module order and item order, (3) insertion of two unrelated types (per-type files of all other types must be "
+    chk.rule = ("programs with 10-20 types split over two bridge modules (two thirds of them decorated with backend-conditional rename/disable attributes and abi_rename patterns at module, type, impl and method level; half of them with traits and `impl Trait` parameters where the backend supports traits), per backend: base run vs (1) repeat runs in fresh processes, (2) random "
+                "permutations of module order and item order, (3) insertion of three unrelated types (opaque with callback / write methods, struct, enum with a callback method; sorted first or last, in an existing or a new last module) (per-type files of all other types must be "
                 "byte-identical; aggregate index files exempt), (4) extra non-bridge items incl. a same-named struct in a non-bridge module. "
                 "distinct_nontrivial = distinct (backend, program, comparison kind) triples actually compared.")
     chk.extra = dict(stats, programs=nprog, backends=toolrun.BACKENDS, skipped=nskip,
